@@ -213,3 +213,53 @@ def explain(call):
         got = repr(e)
     import json
     return "lines=%r\nexpected=%s\ngot=%s" % (w.lines, json.dumps(exp)[:700], json.dumps(got, default=str)[:700])
+
+
+def ids_from_any_counter(n0: int) -> bool:
+    """
+    pre: 0 <= n0 <= 9
+    post: _
+    """
+    n0 = n0 + param("base", 0)
+    # C11: one inductive step over the history of a stream: whatever the shared generator has handed out before (n0 ids),
+    # this document's AST nodes and pickles get exactly n0, n0+1, ... in canonical order
+    w, exp = build(SHAPE, "a", "b", "c")
+    idgen = IdGenerator()
+    idgen._id_counter = n0
+    got = parse_lines(w.lines, idgen)
+    got["uri"] = "u"
+    pickles = Compiler(idgen).compile(got)
+    with sym.untraced():
+        base = _collect_ids(exp)
+    k = len(base)
+    ids = _collect_ids(got)
+    if len(ids) != k:
+        return False
+    for i, x in enumerate(ids):
+        if x != str(n0 + int(base[i])):
+            return False
+    j = k
+    for p in pickles:
+        for s in p["steps"]:
+            if s["id"] != str(n0 + j):
+                return False
+            j += 1
+        if p["id"] != str(n0 + j):
+            return False
+        j += 1
+    return idgen._id_counter == n0 + j
+
+
+def _collect_ids(node, out=None):
+    """ids in document (pre-order) position; the canonical numbering is checked through the expected AST"""
+    if out is None:
+        out = []
+    if isinstance(node, dict):
+        if "id" in node:
+            out.append(node["id"])
+        for k, v in node.items():
+            _collect_ids(v, out)
+    elif isinstance(node, list):
+        for v in node:
+            _collect_ids(v, out)
+    return out
